@@ -79,7 +79,8 @@ Record handle := mkH {
   h_data_err : bool;         (* ... and it failed *)
   h_fresh : bool;            (* created by newFile: Data() is the FS's own closure, not a store call *)
   h_names : option (list str + err);     (* memoised ReadDirNames() result, None = not evaluated yet *)
-  h_closed : bool
+  h_closed : bool;
+  h_size : option nat         (* sizeOnce: the record's Size() at the first time it was asked *)
 }.
 
 Record kv := mkKV {
